@@ -120,6 +120,7 @@ fn v4_check<'a>(
                 && v.data == Some(d) && exists|payload: LineCountViolation| #[trigger] serde_json::value_encodes(d, payload) // [V4.post.payload]
                     && payload.actual == nonblank_count(content_of(block_with_context.block, file_blocks.file_content@))
                     && payload.op@ == op_token(op) && payload.expected == expected,
+        forall|k2: PathBuf| k2 != *file_path && #[trigger] old(violations)@.contains_key(k2) ==> final(violations)@.contains_key(k2) && final(violations)@[k2] == old(violations)@[k2], // [V4.post.other_files_untouched]
         r is Err ==> final(violations)@ == old(violations)@, // [V4.post.err_leaves_report]
 //@tail
     Ok(())
